@@ -96,7 +96,7 @@ class Ctx:
 
     # ---- executions + trace validation
     def run_and_validate(self, driver, component, trace_module, scenarios, family, props=None,
-                         wall=30.0, nontrivial=None, workers=None, known_match=None,
+                         wall=12.0, nontrivial=None, workers=None, known_match=None,
                          validate_env=None):
         """Execute scenarios on the real code, validate the traces with TLC, record verdicts.
         Returns list of (scenario, result, verdict)."""
